@@ -1,6 +1,6 @@
 (* C09 — merge loses nothing when inputs agree on names; identity and fold laws. *)
 From Sigtools.Model Require Import Base Bind Roles Algebra Universe.
-From Sigtools.Proofs Require Import SmallModel Basics SweepDefs Bounded MergeNeutral SweepDefs2 SweepDefs3 Bounded3.
+From Sigtools.Proofs Require Import SmallModel Basics SweepDefs Bounded MergeNeutral MergeIdem SweepDefs2 SweepDefs3 Bounded3.
 
 (* apply_params(s, *sort_params(s)) equals s, for all valid signatures *)
 Theorem C09_sort_apply_roundtrip s :
@@ -59,3 +59,11 @@ Theorem C09_fold_law_U1 a b c :
   fold_check a b c = true.
 Proof. exact (merge_fold_law_U1 a b c). Qed.
 Print Assumptions C09_fold_law_U1.
+
+(* for ALL valid signatures (unannotated parameters carry no upgraded annotation):
+   merge(s, s) has the parameters of s *)
+Theorem C09_idempotent s :
+  valid_sig (params s) = true -> (forall p, In p (params s) -> ann_wf p) ->
+  exists r, merge [s; s] = Ok r /\ params r = params s.
+Proof. exact (merge_idempotent s). Qed.
+Print Assumptions C09_idempotent.
